@@ -4,6 +4,7 @@ pub mod dynrec;
 pub mod entry;
 pub mod err;
 pub mod rt;
+pub mod tables;
 
 pub use bridge::{Bridge, VarI, VarU};
 pub use entry::{derived, entry, entry_vec, DecRun, EncRun, Entry, Sink, ALL_SINKS};
